@@ -172,7 +172,16 @@ Definition rust_keywords : list str :=
     s [98;111;120]; s [100;111]; s [102;105;110;97;108]; s [109;97;99;114;111]; s [111;118;101;114;114;105;100;101]; s [112;114;105;118]; s [116;114;121];
     s [116;121;112;101;111;102]; s [117;110;115;105;122;101;100]; s [118;105;114;116;117;97;108]; s [121;105;101;108;100]; s [103;101;110] ].
 
-Inductive gclass := GReserved | GDupType | GDupFn | GFixedName | GKeywordFn | GBindingVariant.
+Inductive gclass := GReserved | GDupType | GDupFn | GFixedName | GKeywordFn | GBindingVariant | GErrorName.
+
+(* a declared error E gets the trait method VarlinkCallError::reply_<snake E>; the emitted code itself calls
+   varlink::CallTrait's reply_invalid_parameter / reply_method_not_found / reply_struct with method-call syntax on the
+   same receiver, so an error whose snake_case name is one of these makes those calls ambiguous (E0034) *)
+Definition shadowing_error_names : list str :=
+  [ s [105;110;118;97;108;105;100;95;112;97;114;97;109;101;116;101;114] (* invalid_parameter *); s [109;101;116;104;111;100;95;110;111;116;95;102;111;117;110;100] (* method_not_found *); s [115;116;114;117;99;116] (* struct *) ].
+(* ... and an error named Self becomes the enum variant ErrorKind::Self, which is not an identifier *)
+Definition has_shadowing_error (i : idl) : bool :=
+  existsb (fun e => existsb (beq_str (snake (fst e))) shadowing_error_names || beq_str (fst e) (s [83;101;108;102] (* Self *))) (errors_of i).
 
 (* a parameter (method input, method output, error parameter) whose type is directly an enum that
    has a member named like the parameter: rustc's deny-by-default lint bindings_with_variant_name
@@ -197,4 +206,5 @@ Definition known_classes (i : idl) : list gclass :=
   (if has_dup (emitted_fn_names i) then [GDupFn] else []) ++
   (if existsb (fun t => existsb (beq_str (fst t)) fixed_names) (typedefs_of i) then [GFixedName] else []) ++
   (if existsb (fun m => existsb (beq_str (snake (fst (fst m)))) rust_keywords) (methods_of i) then [GKeywordFn] else []) ++
-  (if has_binding_clash i then [GBindingVariant] else []).
+  (if has_binding_clash i then [GBindingVariant] else []) ++
+  (if has_shadowing_error i then [GErrorName] else []).
